@@ -188,4 +188,75 @@ theorem spec_partial (x : Nat) (p : Int) (m10 : Nat) (o : Obs)
   rw [hr, hc, hf, nn _ fin.1, nn _ fin.2.1, nn _ fin.2.2]
   simp [spec, fin, near, side]
 
+/-! ### to_float / parse_float convert consistently -/
+
+/-- on strings `to_float` *is* `parse_float` (same `Conversion::Float`), whatever the parser does. -/
+theorem to_float_parse_float_agree (parse : List Nat → Option Nat) (b : List Nat) :
+    toFloat parse (.bytes b) = parseFloat parse (.bytes b) := rfl
+
+theorem orZero_notNaN (o : Option Nat) : isNaN (orZero o) = false := by
+  cases o with
+  | none => decide
+  | some b =>
+    simp only [orZero]
+    split
+    · decide
+    · rename_i h; simpa using h
+
+/-- neither function ever returns NaN (for a float argument: given it is not NaN, as `NotNan` guarantees). -/
+theorem to_float_notNaN (parse : List Nat → Option Nat) (v : Value) (f : Nat)
+    (hv : ∀ b, v = .float b → isNaN b = false) (h : toFloat parse v = .ok (.float f)) : isNaN f = false := by
+  cases v with
+  | float b => simp [toFloat] at h; subst h; exact hv b rfl
+  | int i => simp [toFloat] at h; subst h; exact orZero_notNaN _
+  | bool b => simp [toFloat] at h; subst h; cases b <;> decide
+  | null => simp [toFloat] at h; subst h; decide
+  | ts ns =>
+    simp only [toFloat] at h
+    split at h
+    · simp at h; subst h; exact orZero_notNaN _
+    · cases h
+  | bytes b =>
+    simp only [toFloat, bytesToFloat] at h
+    split at h
+    · split at h
+      · cases h
+      · rename_i hn; simp at h; subst h; simpa using hn
+    · cases h
+  | regex _ => simp [toFloat] at h
+  | arr _ => simp [toFloat] at h
+  | obj _ => simp [toFloat] at h
+
+/-- `to_float` of an integer is the correctly rounded double (`i as f64`), never replaced by `0.0`. -/
+theorem to_float_int (parse : List Nat → Option Nat) (i : Int) :
+    toFloat parse (.int i) = .ok (.float (ofInt i)) := by
+  simp [toFloat, orZero, ofInt_notNaN]
+
+/-- `to_float` is idempotent: its result is a float, and floats are returned as they are. -/
+theorem to_float_idempotent (parse : List Nat → Option Nat) (v w : Value) (h : toFloat parse v = .ok w) :
+    toFloat parse w = .ok w := by
+  have : ∃ f, w = .float f := by
+    cases v with
+    | bytes b =>
+      simp only [toFloat, bytesToFloat] at h
+      split at h
+      · split at h
+        · cases h
+        · simp at h; exact ⟨_, h.symm⟩
+      · cases h
+    | ts ns =>
+      simp only [toFloat] at h
+      split at h
+      · simp at h; exact ⟨_, h.symm⟩
+      · cases h
+    | float b => simp [toFloat] at h; exact ⟨_, h.symm⟩
+    | int i => simp [toFloat] at h; exact ⟨_, h.symm⟩
+    | bool b => simp [toFloat] at h; exact ⟨_, h.symm⟩
+    | null => simp [toFloat] at h; exact ⟨_, h.symm⟩
+    | regex _ => simp [toFloat] at h
+    | arr _ => simp [toFloat] at h
+    | obj _ => simp [toFloat] at h
+  obtain ⟨f, rfl⟩ := this
+  rfl
+
 end C29f
